@@ -46,7 +46,7 @@ type FoundViolation struct {
 // ChunkResult is what a worker reports for its range.
 type ChunkResult struct {
 	Runs          int               `json:"runs"`
-	VirtualNs     int64             `json:"virtualNs"`
+	VirtualS      float64           `json:"virtualS"`
 	RealNs        int64             `json:"realNs"`
 	Stats         map[string]int    `json:"stats"`
 	Probes        map[string]int    `json:"probes"`
@@ -277,7 +277,7 @@ func workerMain(t *testing.T) {
 		if os.Getenv("VERIF_HASHMODE") != "" {
 			res.RunHashes = append(res.RunHashes, out.LogHash[:min(12, len(out.LogHash))])
 		}
-		res.VirtualNs += int64(out.Virtual)
+		res.VirtualS += out.Virtual.Seconds()
 		res.RealNs += out.RealNs
 		if out.W != nil {
 			for k, n := range out.W.Stats {
